@@ -402,9 +402,69 @@ fn run_batch_sharded(engine: &dyn Engine, cfg: &BatchCfg) -> Aggregate {
         children.push(child);
     }
     let mut total = Aggregate::default();
-    for (k, child) in children.into_iter().enumerate() {
-        let out = child.wait_with_output().expect("worker output");
-        let text = String::from_utf8_lossy(&out.stdout);
+    // Watch the workers: their output is drained by reader threads (so that none blocks on a full pipe), their
+    // progress notes are polled, and a worker whose note has not moved for `stall_s` seconds of wall-clock time is
+    // stuck inside one run (a real deadlock or an endless loop in the code under test: virtual time cannot run away,
+    // every engine caps its steps) - it is killed and the run reported.
+    let stall_s: f64 = std::env::var("VERIF_STALL_S").ok().and_then(|s| s.parse().ok()).unwrap_or(if cfg.thorough { 600.0 } else { 240.0 });
+    let mut readers = Vec::new();
+    for child in children.iter_mut() {
+        let mut stdout = child.stdout.take().expect("piped stdout");
+        readers.push(std::thread::spawn(move || {
+            use std::io::Read;
+            let mut text = String::new();
+            let _ = stdout.read_to_string(&mut text);
+            text
+        }));
+    }
+    let mut status: Vec<Option<std::process::ExitStatus>> = vec![None; children.len()];
+    let mut hung: Vec<Option<u64>> = vec![None; children.len()];
+    let mut last: Vec<(Option<u64>, Instant)> = vec![(None, Instant::now()); children.len()];
+    while status.iter().any(|s| s.is_none()) {
+        for (k, child) in children.iter_mut().enumerate() {
+            if status[k].is_some() {
+                continue;
+            }
+            if let Ok(Some(st)) = child.try_wait() {
+                status[k] = Some(st);
+                continue;
+            }
+            let idx = std::fs::read(progress_path(cfg, engine, k as u64))
+                .ok()
+                .filter(|b| b.len() == 8)
+                .map(|b| u64::from_le_bytes(b.try_into().unwrap()));
+            if idx != last[k].0 {
+                last[k] = (idx, Instant::now());
+            } else if idx.is_some() && last[k].1.elapsed().as_secs_f64() > stall_s {
+                hung[k] = idx;
+                let _ = child.kill();
+                status[k] = child.wait().ok();
+            }
+        }
+        std::thread::sleep(std::time::Duration::from_millis(200));
+    }
+    for (k, reader) in readers.into_iter().enumerate() {
+        let text = reader.join().unwrap_or_default();
+        let out_status = status[k].expect("status");
+        if let Some(idx) = hung[k] {
+            total.failures.push((
+                idx,
+                Violation {
+                    property: intern(cfg.property),
+                    rule: "run_hung",
+                    detail: format!(
+                        "run #{idx} of {} made no progress for {stall_s} s of wall-clock time and was killed: the code under test is stuck (a deadlock on a real lock, or a loop that never reaches a scheduling point)",
+                        engine.name()
+                    ),
+                },
+                Vec::new(),
+            ));
+            continue;
+        }
+        struct Out {
+            status: std::process::ExitStatus,
+        }
+        let out = Out { status: out_status };
         match text.lines().rev().find(|l| l.starts_with('{')).and_then(|l| serde_json::from_str::<Value>(l).ok()) {
             Some(v) => {
                 let a = Aggregate::from_json(&v);
@@ -802,7 +862,7 @@ pub fn report(
                         thorough: part.cfg.thorough,
                         want_trace: false,
                     };
-                    if v.rule == "process_aborted" {
+                    if v.rule == "process_aborted" || v.rule == "run_hung" {
                         // cannot be re-executed in this process (it would die too) and has no recorded choices: the
                         // replay file names the run by its seed, and `replay` executes it in a child process
                         let dir = verif_dir.join("replays");
